@@ -1,5 +1,284 @@
 package main
 
-// further extension points (hooks, histories, reports)
-func runOpExt2(f []string) (string, bool) { return "", false }
-func extMain(args []string) bool          { return false }
+import (
+	"fmt"
+	"strconv"
+	"strings"
+
+	m2 "github.com/goark/go-cvss/v2/metric"
+	m3 "github.com/goark/go-cvss/v3/metric"
+)
+
+// ---- observers on nil receivers and fresh constructor results (C12), field resets, huge inputs
+
+func nilness(isNil bool) string {
+	if isNil {
+		return "nil"
+	}
+	return "ok"
+}
+
+// obs3 queries every observer of the property on a possibly-nil v3 receiver of the level.
+func obs3(level string, b *m3.Base, t *m3.Temporal, e *m3.Environmental) string {
+	switch level {
+	case "B":
+		return fmt.Sprintf("s=%s sv=%d ge=%s enc=%s str=%s bm=%s", fbits(b.Score()), int(b.Severity()), errTag(b.GetError()),
+			encPair(b.Encode()), hx(b.String()), nilness(b.BaseMetrics() == nil))
+	case "T":
+		return fmt.Sprintf("s=%s sv=%d ge=%s enc=%s str=%s bm=%s", fbits(t.Score()), int(t.Severity()), errTag(t.GetError()),
+			encPair(t.Encode()), hx(t.String()), nilness(t.BaseMetrics() == nil))
+	default:
+		return fmt.Sprintf("s=%s sv=%d ge=%s enc=%s str=%s bm=%s tm=%s", fbits(e.Score()), int(e.Severity()), errTag(e.GetError()),
+			encPair(e.Encode()), hx(e.String()), nilness(e.BaseMetrics() == nil), nilness(e.TemporalMetrics() == nil))
+	}
+}
+
+func obs2(level string, b *m2.Base, t *m2.Temporal, e *m2.Environmental) string {
+	switch level {
+	case "B":
+		return fmt.Sprintf("s=%s sv=%d ge=%s enc=%s str=%s", fbits(b.Score()), int(b.Severity()), errTag(b.GetError()),
+			encPair(b.Encode()), hx(b.String()))
+	case "T":
+		return fmt.Sprintf("s=%s sv=%d ge=%s enc=%s str=%s bm=%s", fbits(t.Score()), int(t.Severity()), errTag(t.GetError()),
+			encPair(t.Encode()), hx(t.String()), nilness(t.BaseMetrics() == nil))
+	default:
+		return fmt.Sprintf("s=%s sv=%d ge=%s enc=%s str=%s bm=%s tm=%s", fbits(e.Score()), int(e.Severity()), errTag(e.GetError()),
+			encPair(e.Encode()), hx(e.String()), nilness(e.BaseMetrics() == nil), nilness(e.TemporalMetrics() == nil))
+	}
+}
+
+func opQ3(level, kind string) string {
+	var b *m3.Base
+	var t *m3.Temporal
+	var e *m3.Environmental
+	if kind == "fresh" {
+		b, t, e = m3.NewBase(), m3.NewTemporal(), m3.NewEnvironmental()
+	}
+	return obs3(level, b, t, e)
+}
+
+func opQ2(level, kind string) string {
+	var b *m2.Base
+	var t *m2.Temporal
+	var e *m2.Environmental
+	if kind == "fresh" {
+		b, t, e = m2.NewBase(), m2.NewTemporal(), m2.NewEnvironmental()
+	}
+	return obs2(level, b, t, e)
+}
+
+func set3(b *m3.Base, t *m3.Temporal, e *m3.Environmental, name string, v int) bool {
+	switch name {
+	case "Ver":
+		b.Ver = m3.Version(v)
+	case "AV":
+		b.AV = m3.AttackVector(v)
+	case "AC":
+		b.AC = m3.AttackComplexity(v)
+	case "PR":
+		b.PR = m3.PrivilegesRequired(v)
+	case "UI":
+		b.UI = m3.UserInteraction(v)
+	case "S":
+		b.S = m3.Scope(v)
+	case "C":
+		b.C = m3.ConfidentialityImpact(v)
+	case "I":
+		b.I = m3.IntegrityImpact(v)
+	case "A":
+		b.A = m3.AvailabilityImpact(v)
+	default:
+		if t == nil {
+			return false
+		}
+		switch name {
+		case "E":
+			t.E = m3.Exploitability(v)
+		case "RL":
+			t.RL = m3.RemediationLevel(v)
+		case "RC":
+			t.RC = m3.ReportConfidence(v)
+		default:
+			if e == nil {
+				return false
+			}
+			switch name {
+			case "CR":
+				e.CR = m3.ConfidentialityRequirement(v)
+			case "IR":
+				e.IR = m3.IntegrityRequirement(v)
+			case "AR":
+				e.AR = m3.AvailabilityRequirement(v)
+			case "MAV":
+				e.MAV = m3.ModifiedAttackVector(v)
+			case "MAC":
+				e.MAC = m3.ModifiedAttackComplexity(v)
+			case "MPR":
+				e.MPR = m3.ModifiedPrivilegesRequired(v)
+			case "MUI":
+				e.MUI = m3.ModifiedUserInteraction(v)
+			case "MS":
+				e.MS = m3.ModifiedScope(v)
+			case "MC":
+				e.MC = m3.ModifiedConfidentialityImpact(v)
+			case "MI":
+				e.MI = m3.ModifiedIntegrityImpact(v)
+			case "MA":
+				e.MA = m3.ModifiedAvailabilityImpact(v)
+			default:
+				return false
+			}
+		}
+	}
+	return true
+}
+
+func set2(b *m2.Base, t *m2.Temporal, e *m2.Environmental, name string, v int) bool {
+	switch name {
+	case "AV":
+		b.AV = m2.AccessVector(v)
+	case "AC":
+		b.AC = m2.AccessComplexity(v)
+	case "Au":
+		b.Au = m2.Authentication(v)
+	case "C":
+		b.C = m2.ConfidentialityImpact(v)
+	case "I":
+		b.I = m2.IntegrityImpact(v)
+	case "A":
+		b.A = m2.AvailabilityImpact(v)
+	default:
+		if t == nil {
+			return false
+		}
+		switch name {
+		case "E":
+			t.E = m2.Exploitability(v)
+		case "RL":
+			t.RL = m2.RemediationLevel(v)
+		case "RC":
+			t.RC = m2.ReportConfidence(v)
+		default:
+			if e == nil {
+				return false
+			}
+			switch name {
+			case "CDP":
+				e.CDP = m2.CollateralDamagePotential(v)
+			case "TD":
+				e.TD = m2.TargetDistribution(v)
+			case "CR":
+				e.CR = m2.ConfidentialityRequirement(v)
+			case "IR":
+				e.IR = m2.IntegrityRequirement(v)
+			case "AR":
+				e.AR = m2.AvailabilityRequirement(v)
+			default:
+				return false
+			}
+		}
+	}
+	return true
+}
+
+// opF3: decode (any outcome), set one exported field, dump the receiver.
+func opF3(level, vec, name string, v int) string {
+	switch level {
+	case "B":
+		o := m3.NewBase()
+		o.Decode(vec)
+		if !set3(o, nil, nil, name, v) {
+			return "nofield"
+		}
+		return dump3(level, o, nil, nil)
+	case "T":
+		o := m3.NewTemporal()
+		o.Decode(vec)
+		if !set3(o.Base, o, nil, name, v) {
+			return "nofield"
+		}
+		return dump3(level, o.BaseMetrics(), o, nil)
+	default:
+		o := m3.NewEnvironmental()
+		o.Decode(vec)
+		if !set3(o.Base, o.Temporal, o, name, v) {
+			return "nofield"
+		}
+		return dump3(level, o.BaseMetrics(), o.TemporalMetrics(), o)
+	}
+}
+
+func opF2(level, vec, name string, v int) string {
+	switch level {
+	case "B":
+		o := m2.NewBase()
+		o.Decode(vec)
+		if !set2(o, nil, nil, name, v) {
+			return "nofield"
+		}
+		return dump2(o, nil, nil)
+	case "T":
+		o := m2.NewTemporal()
+		o.Decode(vec)
+		if !set2(o.Base, o, nil, name, v) {
+			return "nofield"
+		}
+		return dump2(o.BaseMetrics(), o, nil)
+	default:
+		o := m2.NewEnvironmental()
+		o.Decode(vec)
+		if !set2(o.Base, o.Temporal, o, name, v) {
+			return "nofield"
+		}
+		return dump2(o.BaseMetrics(), o.TemporalMetrics(), o)
+	}
+}
+
+// opBig: a huge input built by repetition; only the outcome is printed.
+func opBig(ver, level, head, unit string, n int) string {
+	s := head + strings.Repeat(unit, n)
+	var out string
+	if ver == "3" {
+		out = opD3x(level, s, false, false)
+	} else {
+		out = opD2x(level, s, false, false)
+	}
+	f := strings.SplitN(out, " ", 3)
+	if len(f) >= 2 {
+		return f[0] + " " + f[1]
+	}
+	return out
+}
+
+func runOpExt2(f []string) (string, bool) {
+	arg := func(i int) string {
+		if i < len(f) {
+			return f[i]
+		}
+		return ""
+	}
+	switch f[0] {
+	case "Q3":
+		return opQ3(arg(1), arg(2)), true
+	case "Q2":
+		return opQ2(arg(1), arg(2)), true
+	case "F3", "F2":
+		v, err := strconv.Atoi(arg(4))
+		if err != nil {
+			return "", false
+		}
+		if f[0] == "F3" {
+			return opF3(arg(1), unhx(arg(2)), arg(3), v), true
+		}
+		return opF2(arg(1), unhx(arg(2)), arg(3), v), true
+	case "BIG":
+		n, err := strconv.Atoi(arg(5))
+		if err != nil {
+			return "", false
+		}
+		return opBig(arg(1), arg(2), unhx(arg(3)), unhx(arg(4)), n), true
+	}
+	return runOpExt3(f)
+}
+
+func extMain(args []string) bool { return false }
